@@ -100,9 +100,11 @@ pp_semaphore_create_handle (PSemaphore	*sem,
 			else
 				init_val = 0;
 
+			/* In the CREATE mode the name has just been unlinked, so the
+			 * semaphore must be created again with the requested value */
 			while ((sem->sem_hdl = sem_open (sem->platform_key,
-							 0,
-							 0,
+							 (sem->mode == P_SEM_ACCESS_CREATE) ? O_CREAT : 0,
+							 0660,
 							 init_val)) == P_SEM_INVALID_HDL &&
 				p_error_get_last_system () == EINTR)
 				;
